@@ -380,19 +380,19 @@ func (s *Store) lookupSecretInternal(ctx context.Context, name string) (Secret, 
 	// Note that the winner of the race on the singleflight may time out early,
 	// in which case we want to retry (up to a safety limit) when we discover
 	// the result was due to a context cancellation other than our own.
-	for {
-		v, err, _ := s.single.Do("lookup:"+name, func() (any, error) {
-			// If the winning caller's context doesn't already have a deadline,
-			// impose a safety fallback so requests do not stall forever if the
-			// infrastructure is farkakte.
-			dctx := ctx
-			if _, ok := ctx.Deadline(); !ok {
-				var cancel context.CancelFunc
-				dctx, cancel = context.WithTimeout(ctx, 5*time.Minute)
-				defer cancel()
-			}
 
-			sv, err := s.client.Get(dctx, name)
+	// If the caller's context doesn't already have a deadline, impose a safety
+	// fallback so requests do not stall forever if the infrastructure is
+	// farkakte. The limit applies to this caller's whole lookup, including
+	// any retries below.
+	if _, ok := ctx.Deadline(); !ok {
+		var cancel context.CancelFunc
+		ctx, cancel = context.WithTimeout(ctx, 5*time.Minute)
+		defer cancel()
+	}
+	for {
+		ch := s.single.DoChan("lookup:"+name, func() (any, error) {
+			sv, err := s.client.Get(ctx, name)
 			if err != nil {
 				return nil, fmt.Errorf("lookup %q: %w", name, err)
 			}
@@ -406,17 +406,24 @@ func (s *Store) lookupSecretInternal(ctx context.Context, name string) (Secret, 
 			s.logf("[store] added new undeclared secret %q", name)
 			return s.secretLocked(name), nil
 		})
-		if err == nil {
-			return v.(Secret), nil
-		} else if errors.Is(err, context.DeadlineExceeded) || errors.Is(err, context.Canceled) {
-			if ctx.Err() == nil {
-				// This wasn't us timing out, try again.
-				continue
+		select {
+		case <-ctx.Done():
+			// Our own context ended (or the safety limit expired) while the
+			// lookup was in flight.
+			return nil, fmt.Errorf("lookup %q: %w", name, ctx.Err())
+		case res := <-ch:
+			if res.Err == nil {
+				return res.Val.(Secret), nil
+			} else if errors.Is(res.Err, context.DeadlineExceeded) || errors.Is(res.Err, context.Canceled) {
+				if ctx.Err() == nil {
+					// This wasn't us timing out, try again.
+					continue
+				}
 			}
+			// Reaching here, either we won the singleflight race and timed
+			// out, or we got a real error from the winner.
+			return nil, res.Err
 		}
-		// Reaching here, either we won the singleflight race and timed out, or
-		// we got a real error from the winner.
-		return nil, err
 	}
 }
 
